@@ -298,6 +298,9 @@ def oracle_c10(obs: Obs):
     idx = _idx(obs)
     req_nodes = [i for i, _ in cfg.requested]
     if cfg.cof:
+        if obs.outcome[0] == 'spin':
+            out.append(('no-termination', 'continue_on_failure=True: run_tasks never returns (keeps polling although nothing is running or runnable)'))
+            return out
         if obs.outcome[0] != 'return':
             e = obs.outcome[1]
             out.append((f'cof-raised:{type(e).__name__}', f'continue_on_failure=True but run_tasks raised {type(e).__name__}: {e}'))
